@@ -8,7 +8,9 @@ PROP = dict(
     rule=("(loop) library WebSocket::connect clients against a library WebSocketServer on 127.0.0.1 port 0 (port read back), directly and through "
           "HttpServer::link: scripts of 1-20 messages, each client->server, server->client or echoed, text (NUL-free) or binary, through every send() overload; "
           "EVERY length 1..300 and 65495..65576 in all 6 direction/type combinations, rapidcheck lengths biased to +-40 of 125/126/65535/65536 and sampled "
-          "up to 70000, 200000 and 1 MiB once per run (1, 2, 4 MiB thorough); both ends compare the sequence of non-empty receive() results with the "
+          "up to 70000, 200000 and 1 MiB once per run (1, 2, 4 MiB thorough); ONE client WebSocket object is reused inside a case: connect, exchange, close(), connect() again to the same or the other server "
+          "(32 dedicated cases of 2-5 rounds in quick / 400 thorough whose reused object receives 124..128, 65534..65537, 300, 70000 bytes, plus `conn` ops "
+          "interleaved in ~1/9 of the generated positions); both ends compare the sequence of non-empty receive() results with the "
           "script (payloads are a pure function of (type, length, seed) written in the case) and an end marker proves nothing extra arrived. "
           "(in) WebSocket(Socket(fd), role) over one end of a socketpair, fed frames built by an independent RFC 6455 codec (harness/common/ref_ws.h): "
           "both roles, masked and unmasked, mask keys random / zero / with 1-3 zero bytes / single-bit, 1-4 fragments at generated split points "
@@ -36,6 +38,8 @@ PROP = dict(
                  "a receive() result of length 0 is the library's 'no message' value; a close frame is generated with an empty payload or a bare status code only "
                  "(the library returns a close reason text through receive(), which the property does not cover)",
                  "hang bound 60 s per blocking step (expected: micro- to milliseconds), libFuzzer -timeout=60; failures of the network parts are confirmed in fresh processes",
+                 "loopback sessions: an end that waits sees the other end stuck inside receive() (entered, its socket drained, nothing being sent) and reports it after 5 s "
+                 "of that unchanged state instead of after the 60 s bound (gap between a receive()'s last read and its return: microseconds)",
                  "declared lengths between 1 MiB and 2^31-1 that are not actually sent are not generated (allocation pressure is outside the property); "
                  "TCP_NODELAY/TCP_QUICKACK are set on the loopback connections for speed only",
                  "reads of uninitialised memory are visible only through their consequences (garbage lengths, ASan's 0xbe fill pattern echoed in a pong); MSan is unavailable"],
